@@ -8,6 +8,7 @@ from .. import paths
 from ..core import FUNC, call_attr, calls_in, chain, dotted, kwarg, text, walk_local, norm, is_const, const
 
 EXPLANATION = [
+    'C03.lmp-pending: Controller.send_lmp_packet returns on every path a future created by that very call and registers it under (peer, opcode) (same rule as C06.lmp-pending): a repeated procedure towards the same peer is not concluded by the stale answer of the previous one.',
     'C03.ll-coverage: every link-layer control PDU class the virtual controller constructs in a send_ll_control_pdu call has a matching `case` in on_ll_control_pdu (otherwise the HCI procedure that sent it is accepted as pending and never concluded, in one of the two roles).',
     'C03.host-complete: a Command Complete that only carries credits (opcode 0) never concludes the pending command: on_command_processed / set_result are reached only on paths where `event.command_opcode == 0` is excluded (symbolic path facts); the pending future is resolved once, under `if self.pending_response`.',
     'C03.lmp-answers: each classic LMP request the virtual controller accepts is answered by exactly one response naming that request; the responder side answers the request it received, and in every function unit of a responder (method body or nested callback) no path reaches the local conclusion of the procedure (or the normal exit) without the LMP answer having been sent or handed to a nested callback that sends it on all its paths.',
@@ -983,7 +984,19 @@ def ll_coverage(ctx):
     R.check(len(sent) >= 8, rule, 'bumble.controller | LL control PDUs sent', f'{len(sent)} PDU classes sent, {len(handled)} handled', f'only {len(sent)} sent PDU classes found')
 
 
+def lmp_pending_rule(ctx):
+    from . import c06
+    c06.lmp_pending(ctx, rule='C03.lmp-pending')
+
+
+def identity_rule(ctx):
+    from ..generic_rules import identity_compare
+    identity_compare(ctx, 'C03.identity', ['bumble.host', 'bumble.controller', 'bumble.link'])
+
+
 RULES = [
+    ('C03.identity', identity_rule),
+    ('C03.lmp-pending', lmp_pending_rule),
     ('C03.ll-coverage', ll_coverage),
     ('C03.host-complete', host_complete),
     ('C03.lmp-answers', lmp_answers),
